@@ -78,6 +78,14 @@ func zeroOf(t types.Type) Value {
 			f[i] = zeroOf(u.Field(i).Type())
 		}
 		return StructV{f}
+	case *types.Array: // a byte array VALUE is a byte string (Go arrays have value semantics)
+		if bt, ok := u.Elem().Underlying().(*types.Basic); ok && bt.Kind() == types.Uint8 {
+			z := make([]*T, u.Len())
+			for i := range z {
+				z[i] = I(0)
+			}
+			return BytesV{z}
+		}
 	}
 	return NullV{}
 }
